@@ -66,6 +66,95 @@ type fctx struct {
 	fresh   map[types.Object]bool
 	derived map[types.Object]bool // locals holding the result of r.config(): nil exactly when the receiver is not initialised
 	cfIs    int // specialisation of "cf == ronly": 0 unknown, 1 true, 2 false
+	// resMode: the body is translated as an ENTRY POINT: every place where one
+	// of its results may become something other than the zero value of its
+	// type emits (GEv ERes).  Such bodies are never the target of a GCall.
+	resMode bool
+	results map[types.Object]bool // named results
+	tail    bool                  // the call being translated hands its results on as results of this entry point
+}
+
+// zeroExpr: the expression is syntactically the zero value of its type (or the
+// value receiver itself, which IS the zero value in the only analysis that
+// looks at ERes events, the one for zero receivers).
+func (c *fctx) zeroExpr(e ast.Expr) bool {
+	switch x := e.(type) {
+	case *ast.ParenExpr:
+		return c.zeroExpr(x.X)
+	case *ast.BasicLit:
+		switch x.Kind {
+		case token.INT:
+			return x.Value == "0"
+		case token.FLOAT:
+			return x.Value == "0.0" || x.Value == "0."
+		case token.STRING:
+			return x.Value == `""` || x.Value == "``"
+		case token.CHAR:
+			return false
+		}
+	case *ast.Ident:
+		if x.Name == "nil" || x.Name == "false" {
+			if _, isConst := c.g.info.Uses[x].(*types.Nil); isConst || x.Name == "false" {
+				return true
+			}
+		}
+		obj := c.g.info.Uses[x]
+		if obj != nil && c.results[obj] {
+			return true // a named result: its assignments are looked at where they happen
+		}
+		if obj != nil && c.recv != nil && obj == c.recv && !c.recvPtr {
+			return true
+		}
+	case *ast.CompositeLit:
+		return len(x.Elts) == 0
+	case *ast.CallExpr:
+		// a conversion of a zero value
+		if tv, ok := c.g.info.Types[x.Fun]; ok && tv.IsType() && len(x.Args) == 1 {
+			return c.zeroExpr(x.Args[0])
+		}
+	}
+	return false
+}
+
+// pkgCall: e is a call of a function or method of this package (whose body is in the table)
+func (c *fctx) pkgCall(e ast.Expr) (*ast.CallExpr, bool) {
+	x, ok := e.(*ast.CallExpr)
+	if !ok {
+		return nil, false
+	}
+	if tv, ok := c.g.info.Types[x.Fun]; ok && tv.IsType() {
+		return nil, false
+	}
+	var obj types.Object
+	switch f := x.Fun.(type) {
+	case *ast.Ident:
+		obj = c.g.info.Uses[f]
+	case *ast.SelectorExpr:
+		if sel, ok := c.g.info.Selections[f]; ok && sel.Kind() == types.MethodVal {
+			obj = sel.Obj()
+		} else {
+			obj = c.g.info.Uses[f.Sel]
+		}
+	}
+	fn, ok := obj.(*types.Func)
+	if !ok || fn.Pkg() != c.g.pkg {
+		return nil, false
+	}
+	if _, known := c.g.funcs[objKey(fn)]; !known {
+		return nil, false
+	}
+	return x, true
+}
+
+func (c *fctx) isResult(e ast.Expr) bool {
+	if id, ok := e.(*ast.Ident); ok {
+		obj := c.g.info.Uses[id]
+		if obj == nil {
+			obj = c.g.info.Defs[id]
+		}
+		return obj != nil && c.results[obj]
+	}
+	return false
 }
 
 func seq(parts ...string) string {
@@ -377,6 +466,9 @@ func (c *fctx) callTo(key string, same bool, x *ast.CallExpr) string {
 		}
 		name = key + "[" + v + "]"
 	}
+	if c.tail {
+		name += "[res]"
+	}
 	id, ok := c.g.ids[name]
 	if !ok {
 		die("ir: no id for %s", name)
@@ -634,8 +726,25 @@ func (c *fctx) stmt(s ast.Stmt) string {
 		return c.expr(x.X)
 	case *ast.ReturnStmt:
 		var ps []string
+		if c.resMode && len(x.Results) == 1 {
+			if ce, ok := c.pkgCall(x.Results[0]); ok {
+				// return f(...): the callee's results are this function's results
+				c.tail = true
+				s := c.call(ce)
+				c.tail = false
+				return seq(s, "GReturn")
+			}
+		}
 		for _, r := range x.Results {
 			ps = append(ps, c.expr(r))
+		}
+		if c.resMode {
+			for _, r := range x.Results {
+				if !c.zeroExpr(r) {
+					ps = append(ps, "(GEv ERes)")
+					break
+				}
+			}
 		}
 		ps = append(ps, "GReturn")
 		return seq(ps...)
@@ -647,6 +756,9 @@ func (c *fctx) stmt(s ast.Stmt) string {
 			return "GContinue"
 		}
 	case *ast.IncDecStmt:
+		if c.resMode && c.isResult(x.X) {
+			return seq(c.expr(x.X), c.write(x.X), "(GEv ERes)")
+		}
 		return seq(c.expr(x.X), c.write(x.X))
 	case *ast.DeclStmt:
 		gd := x.Decl.(*ast.GenDecl)
@@ -668,6 +780,23 @@ func (c *fctx) stmt(s ast.Stmt) string {
 		return seq(ps...)
 	case *ast.AssignStmt:
 		var ps []string
+		if c.resMode && x.Tok == token.ASSIGN && len(x.Rhs) == 1 {
+			if ce, ok := c.pkgCall(x.Rhs[0]); ok {
+				all := true
+				for _, l := range x.Lhs {
+					if id, isId := l.(*ast.Ident); !(isId && id.Name == "_") && !c.isResult(l) {
+						all = false
+					}
+				}
+				if all {
+					// results = f(...): as for "return f(...)"
+					c.tail = true
+					s := c.call(ce)
+					c.tail = false
+					return s
+				}
+			}
+		}
 		for _, r := range x.Rhs {
 			ps = append(ps, c.expr(r))
 		}
@@ -685,6 +814,11 @@ func (c *fctx) stmt(s ast.Stmt) string {
 				ps = append(ps, c.expr(l)) // compound assignment reads the target
 			}
 			ps = append(ps, c.write(l))
+			if c.resMode && c.isResult(l) {
+				if x.Tok != token.ASSIGN || len(x.Lhs) != len(x.Rhs) || !c.zeroExpr(x.Rhs[i]) {
+					ps = append(ps, "(GEv ERes)")
+				}
+			}
 		}
 		return seq(ps...)
 	case *ast.IfStmt:
@@ -800,6 +934,17 @@ func genIR(repo string, p *pkgInfo) string {
 			names2 = append(names2, k)
 		}
 	}
+	// result-tracking variants of every function (entry points, and callees
+	// whose results are handed on by "return f(...)")
+	for _, n := range append([]string{}, names2...) {
+		k := n
+		if j := strings.Index(n, "["); j >= 0 {
+			k = n[:j]
+		}
+		if r := g.funcs[k].Type.Results; (r != nil && len(r.List) > 0) || g.funcs[k].Name.IsExported() {
+			names2 = append(names2, n+"[res]")
+		}
+	}
 	for i, n := range names2 {
 		g.ids[n] = i
 	}
@@ -808,6 +953,8 @@ func genIR(repo string, p *pkgInfo) string {
 	b.WriteString("From Stackage Require Import Base Guard.\nOpen Scope N_scope.\n\n")
 	b.WriteString("Definition ir_table : list (N * gstmt) := [\n")
 	for i, n := range names2 {
+		resMode := strings.HasSuffix(n, "[res]")
+		n = strings.TrimSuffix(n, "[res]")
 		key := n
 		cfIs := 0
 		if j := strings.Index(n, "["); j >= 0 {
@@ -820,7 +967,8 @@ func genIR(repo string, p *pkgInfo) string {
 			}
 		}
 		fd := g.funcs[key]
-		c := &fctx{g: g, fd: fd, fresh: map[types.Object]bool{}, derived: map[types.Object]bool{}, cfIs: cfIs}
+		c := &fctx{g: g, fd: fd, fresh: map[types.Object]bool{}, derived: map[types.Object]bool{}, cfIs: cfIs,
+			resMode: resMode, results: map[types.Object]bool{}}
 		if fd.Recv != nil && len(fd.Recv.List) > 0 && len(fd.Recv.List[0].Names) > 0 {
 			c.recv = info.Defs[fd.Recv.List[0].Names[0]]
 			_, c.recvPtr = fd.Recv.List[0].Type.(*ast.StarExpr)
@@ -829,6 +977,7 @@ func genIR(repo string, p *pkgInfo) string {
 		if fd.Type.Results != nil {
 			for _, fl := range fd.Type.Results.List {
 				for _, nm := range fl.Names {
+					c.results[info.Defs[nm]] = true
 					switch info.Defs[nm].Type().Underlying().(type) {
 					case *types.Pointer, *types.Interface, *types.Map:
 					default:
@@ -853,7 +1002,7 @@ func genIR(repo string, p *pkgInfo) string {
 		fmt.Fprintf(&b, "  (%d, %s)%s\n", i, coqStr(n), sep)
 	}
 	b.WriteString("].\n\n(* exported entry points: name, receiver class (Guard.rc_Stack etc.), function id *)\nDefinition ir_entries : list entry := [\n")
-	var ents []string
+	var ents, entsRes []string
 	for _, k := range g.keys {
 		fd := g.funcs[k]
 		if !fd.Name.IsExported() {
@@ -884,8 +1033,16 @@ func genIR(repo string, p *pkgInfo) string {
 			id = g.ids[k+"[?]"]
 		}
 		ents = append(ents, fmt.Sprintf("  MkEntry %s %d %d", coqStr(fd.Name.Name), rc, id))
+		resName := k + "[res]"
+		if g.variant[k] {
+			resName = k + "[?][res]"
+		}
+		entsRes = append(entsRes, fmt.Sprintf("  MkEntry %s %d %d", coqStr(fd.Name.Name), rc, g.ids[resName]))
 	}
 	b.WriteString(strings.Join(ents, ";\n"))
+	b.WriteString("\n].\n")
+	b.WriteString("\n(* the same entry points, bodies translated with result tracking (ERes events) *)\nDefinition ir_entries_res : list entry := [\n")
+	b.WriteString(strings.Join(entsRes, ";\n"))
 	b.WriteString("\n].\n")
 	return b.String()
 }
